@@ -29,6 +29,9 @@ structure Ent where
   indb : Bool                 -- still a key of EntityDB._database
   ref : Option Str            -- INSERT: referenced block name as given
   psp : Bool := false         -- dxf.paperspace flag (set by set_owner from is_any_paperspace)
+  subs : List Nat := []       -- linked sub-entities (VERTEX… / ATTRIB… followed by SEQEND): their handles; they are
+                              -- owned by the parent (`take_ownership`); alive, paperspace flag and database membership
+                              -- follow the parent (LinkedEntities.set_owner / destroy)
   deriving Repr, DecidableEq
 
 structure Lay where
@@ -45,6 +48,8 @@ structure State where
   layouts : List Lay                   -- Layouts._layouts in dict order
   layers : List Str                    -- layer keys
   next : Nat                           -- HandleGenerator._handle
+  tabs : List (Nat × Str) := []        -- (table id, key): LTYPE 1, STYLE 2, DIMSTYLE 3, APPID 4, UCS 5, VIEW 6
+  groups : List (Str × Nat × List Nat) := []   -- GroupCollection: (name, handle of the GROUP object, member handles)
   deriving Repr, DecidableEq
 
 inductive Err where
@@ -64,7 +69,7 @@ inductive Op where
   | move (k1 e k2 : Nat)                         -- layout.move_to_layout(e, target)
   | del (k e : Nat)                              -- layout.delete_entity(e)
   | destroy (e : Nat)                            -- entity.destroy()
-  | copy (e k h seed : Nat)                      -- entity.copy_to_layout(target) -> h
+  | copy (e k h : Nat) (subs : List Nat) (seed : Nat)   -- entity.copy_to_layout(target) -> h (+ fresh sub-entity handles)
   | purge                                        -- entitydb.purge(); layout.purge() for all blocks
   | newBlock (name : Str) (br seed : Nat)        -- doc.blocks.new(name)
   | delBlock (name : Str) (safe : Bool)          -- doc.blocks.delete_block(name, safe)
@@ -77,6 +82,16 @@ inductive Op where
   | delLayer (name : Str)
   | reload (seed : Nat)                          -- doc.write(); ezdxf.read()
   | foreign (kind e : Nat)                       -- move / add_entity / copy_to_layout into ANOTHER document
+  | addL (k : Nat) (ref : Option Str) (h : Nat) (subs : List Nat) (seed : Nat)
+      -- layout.add_polyline2d/3d (ref = none) / add_blockref + add_attrib… (ref = some name): parent h, sub-entities subs
+  | explode (e : Nat) (news : List (Nat × List Nat)) (seed : Nat)   -- insert.explode() -> new entities (handle, sub handles)
+  | audit (seed : Nat)                           -- doc.audit()
+  | addEntry (t : Nat) (name : Str) (seed : Nat) -- doc.linetypes/styles/dimstyles/appids/ucs/views .add(name)
+  | delEntry (t : Nat) (name : Str)              -- table.remove(name)
+  | dupEntry (t : Nat) (a b : Str) (seed : Nat)  -- table.duplicate_entry(a, b)
+  | newGroup (name : Str) (h seed : Nat)         -- doc.groups.new(name)
+  | setGroup (name : Str) (ms : List Nat)        -- group.set_data(entities)
+  | delGroup (name : Str)                        -- doc.groups.delete(name)
   deriving Repr, DecidableEq
 
 /-! ### small list helpers -/
@@ -113,15 +128,21 @@ def validTableName (n : Str) : Bool := n.all (fun c => !invalidNameChars.contain
 
 /-! ### entity operations -/
 
-/-- `BlockRecord.is_any_paperspace`: the block record of a layout other than "Model" -/
-def isPaperBr (s : State) (k : Nat) : Bool := s.layouts.any (fun l => l.br == k && l.key != modelKey)
+def paperPrefix : Str := lower paperSpaceName
 
-def newEnt (s : State) (k h seed : Nat) (ref : Option Str) : State × Out :=
+/-- `br.dxf.name.lower().startswith("*paper_space")` -/
+def isPaperName (name : Str) : Bool := (lower name).take paperPrefix.length == paperPrefix
+
+/-- `BlockRecord.is_any_paperspace`: decided by the NAME of the block record (`*Paper_Space…`), not by the layouts -/
+def isPaperBr (s : State) (k : Nat) : Bool :=
+  match blockName s k with | some n => isPaperName n | none => false
+
+def newEnt (s : State) (k h seed : Nat) (ref : Option Str) (subs : List Nat := []) : State × Out :=
   match spaceOf s k with
   | none => (s, .err .other)
   | some _ =>
-    if freshOk s [h] seed then
-      ({ s with ents := s.ents ++ [⟨h, true, some k, true, ref, isPaperBr s k⟩],
+    if freshOk s (h :: subs) seed then
+      ({ s with ents := s.ents ++ [⟨h, true, some k, true, ref, isPaperBr s k, subs⟩],
                 spaces := setSpace s.spaces k (· ++ [h]), next := seed }, .ok)
     else (s, .err .notFresh)
 
@@ -157,8 +178,6 @@ def dropContainer (s : State) (br : Nat) : State :=
            blocks := s.blocks.filter (·.2.2 ≠ br) }
 
 /-! ### block / layout helpers -/
-
-def isLayoutBr (s : State) (br : Nat) : Bool := s.layouts.any (·.br = br)
 
 /-- `is_special_block`: anonymous blocks `*X…` (X ∈ ADT… any letter followed by digits), arrows `_…` -/
 def isAnonymous (nameUp : Str) : Bool :=
@@ -210,6 +229,176 @@ def setActive (s : State) (name : Str) : State × Out :=
           (s3, .ok)
       | _, _ => (s, .err .other)
 
+/-! ### `Auditor.run`, structural part (used by `step (.audit _)`; the theorems are in Lemmas/Audit.lean) -/
+
+def ownerOf (s : State) (h : Nat) : Option Nat :=
+  match findEnt s h with | some e => e.owner | none => none
+
+/-- step 1 on one space: keep dead entries (they are skipped), keep live entries owned by `k` -/
+def keepInSpace (s : State) (k h : Nat) : Bool := !isAlive s h || ownerOf s h == some k
+
+def auditSpaces (s : State) : State :=
+  { s with spaces := s.spaces.map (fun p => (p.1, p.2.filter (keepInSpace s p.1))) }
+
+def spaceFixes (s : State) : Nat :=
+  (s.spaces.map (fun p => (p.2.filter (fun h => !keepInSpace s p.1 h)).length)).sum
+
+/-- the block record `k` is in the entity database: it is a block record of the table -/
+def ownerExists (s : State) (o : Option Nat) : Bool :=
+  match o with | some k => (spaceOf s k).isSome | none => false
+
+def blockDefined (s : State) (r : Option Str) : Bool :=
+  match r with | some n => (blockBr s (lower n)).isSome | none => true
+
+/-- step 2: which database entities are trashed -/
+def trashed (s : State) (e : Ent) : Bool :=
+  e.alive && e.indb && (!ownerExists s e.owner || !blockDefined s e.ref)
+
+def auditEntities (s : State) : State :=
+  { s with ents := s.ents.map (fun e => if trashed s e then { e with alive := false, indb := false } else e) }
+
+/-- both checks report their own fix for the same entity (`check_owner_exist`, then `Insert.audit`) -/
+def entityFixes (s : State) : Nat :=
+  (s.ents.filter (fun e => e.alive && e.indb && !ownerExists s e.owner)).length +
+  (s.ents.filter (fun e => e.alive && e.indb && !blockDefined s e.ref)).length
+
+/-! ### groups (`entities/dxfgroups.py`) -/
+
+def isLayoutBr (s : State) (br : Nat) : Bool := s.layouts.any (·.br = br)
+
+/-- `filter_invalid_entities`: alive and owned by the block record of a (model/paper space) layout -/
+def validMember (s : State) (h : Nat) : Bool :=
+  match findEnt s h with
+  | some e => e.alive && (match e.owner with | some k => isLayoutBr s k && (spaceOf s k).isSome | none => false)
+  | none => false
+
+/-- `all_entities_on_same_layout`: fewer than two distinct owners -/
+def sameLayout (s : State) (ms : List Nat) : Bool :=
+  match ms with
+  | [] => true
+  | m :: r => r.all (fun x => ownerOf s x == ownerOf s m)
+
+/-- `ObjectCollection.get`: names are compared case-insensitively -/
+def groupOf (s : State) (name : Str) : Option (Str × Nat × List Nat) := s.groups.find? (fun g => lower g.1 = lower name)
+
+/-- `Group.audit` on one group: purge invalid members, clear the group if the rest lies on several layouts -/
+def auditGroup (s : State) (g : Str × Nat × List Nat) : Str × Nat × List Nat :=
+  let v := g.2.2.filter (validMember s)
+  (g.1, g.2.1, if sameLayout s v then v else [])
+
+def groupFixes (s : State) : Nat :=
+  (s.groups.map (fun g =>
+    let v := g.2.2.filter (validMember s)
+    (if v.length < g.2.2.length then 1 else 0) + (if sameLayout s v then 0 else 1) +
+    (if (auditGroup s g).2.2.isEmpty then 1 else 0))).sum
+
+/-- `GroupCollection.audit`: every group audited, empty groups removed -/
+def auditGroups (s : State) : State :=
+  { s with groups := (s.groups.map (auditGroup s)).filter (fun g => !g.2.2.isEmpty) }
+
+/-! `Layouts.audit`, second part: orphaned paperspace block records (`*Paper_Space…` without a layout) are deleted with
+    their content (`delete_block(name, safe=False)`); runs before the entities are audited, so block references to a
+    deleted block and entities owned by it are repaired by the same run -/
+
+/-- block records of the paperspace layouts (`key(layout.name) != MODEL`) -/
+def pspLayoutBrs (s : State) : List Nat := (s.layouts.filter (fun l => l.key != modelKey)).map (·.br)
+
+def isOrphan (s : State) (b : Str × Str × Nat) : Bool := isPaperName b.2.1 && !(pspLayoutBrs s).contains b.2.2
+
+def orphanBlocks (s : State) : List Nat := (s.blocks.filter (isOrphan s)).map (·.2.2)
+
+def dropAll (s : State) (l : List Nat) : State := l.foldl dropContainer s
+
+/-- `Layouts._restore_active_layout`: the first paperspace layout (dict order) whose block record is a `*Paper_Space…` block -/
+def restoreCandidate (s : State) : Option Lay :=
+  s.layouts.find? (fun l => l.key != modelKey && (match blockName s l.br with | some n => isPaperName n | none => false))
+
+/-- no block `*Paper_Space` (no active paperspace layout) although a paperspace layout exists -/
+def needRestore (s : State) : Bool := (blockBr s (lower paperSpaceName)).isNone && (restoreCandidate s).isSome
+
+/-- the block record of the candidate is renamed to `*Paper_Space` (`rename_block` moves the entry to the end).  When no
+    paperspace layout is left the code creates a new layout: outside the model (needs new handles), the state is kept -/
+def restoreActive (s : State) : State :=
+  if needRestore s then
+    match restoreCandidate s with
+    | some l => { s with blocks := s.blocks.filter (·.2.2 ≠ l.br) ++ [(lower paperSpaceName, paperSpaceName, l.br)] }
+    | none => s
+  else s
+
+/-- `Layouts.audit`: orphaned paperspace block records are deleted with their content, then a missing active
+    paperspace layout is restored -/
+def auditLayouts (s : State) : State := restoreActive (dropAll s (orphanBlocks s))
+
+def layoutFixes (s : State) : Nat :=
+  (orphanBlocks s).length + (if needRestore (dropAll s (orphanBlocks s)) then 1 else 0)
+
+/-- `DXFGroup.audit` is also reached through `ObjectsSection.audit` at the START of the run (a GROUP is an object of the
+    OBJECTS section), i.e. on the state before anything was repaired: invalid members purged, a group whose members
+    lie on several layouts cleared - empty groups are not removed at this stage -/
+def groupFixes0 (s : State) : Nat :=
+  (s.groups.map (fun g =>
+    let v := g.2.2.filter (validMember s)
+    (if v.length < g.2.2.length then 1 else 0) + (if sameLayout s v then 0 else 1))).sum
+
+/-- the modelled part of `doc.audit()`: (new state, number of applied fixes).
+    Order of the (fixed) `Auditor.run`: objects (groups, first pass), blocks, layouts, all database entities + trashcan,
+    groups (final pass).  The first group pass only changes `groups`, which no later stage before the final pass reads:
+    it is applied to the `groups` field right before the final pass. -/
+def audit (s : State) : State × Nat :=
+  let s1 := auditSpaces s
+  let s2 := auditLayouts s1
+  let s3 := auditEntities s2
+  let s3' := { s3 with groups := s.groups.map (auditGroup s) }
+  (auditGroups s3', spaceFixes s + layoutFixes s1 + entityFixes s2 + groupFixes0 s + groupFixes s3')
+
+def liveContent (s : State) (k : Nat) : List Nat := ((spaceOf s k).getD []).filter (isAlive s)
+
+/-! ### explode: the new entities created by `explode_block_reference` -/
+
+/-- sub-entity handle lists must have the shape of the source: same number of sub-entities -/
+def shapeOk (s : State) (src : List Nat) (news : List (Nat × List Nat)) : Bool :=
+  decide (news.length = src.length) &&
+  ((src.zip news).all fun (p : Nat × Nat × List Nat) =>
+    match findEnt s p.1 with
+    | some x => decide (p.2.2.length = x.subs.length)
+    | none => false)
+
+/-- `attrib_to_text`: "New TEXT entity has same handle as the replaced ATTRIB entity and replaces the ATTRIB entity
+    in the database": the handles of the attached ATTRIBs must not be handles of other (top level) entities -/
+def textsOk (s : State) (texts : List Nat) : Bool :=
+  texts.all (fun h => s.ents.all (fun x => x.h != h) && decide (h < s.next)) && texts.Nodup
+
+/-- the new entities: copies of the block content in order (reference of a nested INSERT kept), then one TEXT
+    per attached ATTRIB (taking the handle of the ATTRIB) -/
+def explodeEnts (s : State) (k : Nat) (src : List Nat) (news : List (Nat × List Nat)) (texts : List Nat) : List Ent :=
+  (src.zip news).map (fun (p : Nat × Nat × List Nat) =>
+    (⟨p.2.1, true, some k, true, (match findEnt s p.1 with | some x => x.ref | none => none), isPaperBr s k, p.2.2⟩ : Ent)) ++
+  texts.map (fun h => (⟨h, true, some k, true, none, isPaperBr s k, []⟩ : Ent))
+
+/-- new entities are appended to the layout of the INSERT ... -/
+def explodeMid (s : State) (k : Nat) (src : List Nat) (news : List (Nat × List Nat)) (texts : List Nat) (seed : Nat) : State :=
+  { s with ents := s.ents ++ explodeEnts s k src news texts,
+           spaces := setSpace s.spaces k (· ++ (news.map (·.1) ++ texts)), next := seed }
+
+/-- ... then `source_layout.delete_entity(block_ref)`; the ATTRIB handles now belong to the TEXT entities, the
+    destroyed INSERT keeps only its SEQEND -/
+def dropAttribs (s : State) (e : Nat) : State :=
+  { s with ents := setEnt s.ents e (fun y => { y with subs := y.subs.drop (y.subs.length - 1) }) }
+
+def explodeCore (s : State) (e k : Nat) (src : List Nat) (news : List (Nat × List Nat)) (texts : List Nat) (seed : Nat) :
+    Option State :=
+  match unlinkCore (explodeMid s k src news texts seed) k e with
+  | some s2 => some (dropAttribs (destroyEnt s2 e) e)
+  | none => none
+
+/-- required table entries re-created by `_create_required_table_entries` and `_create_appids` (keys) -/
+def requiredTabs : List (Nat × Str) :=
+  [(1, ofString "byblock"), (1, ofString "bylayer"), (1, ofString "continuous"), (2, ofString "standard"),
+   (3, ofString "standard"), (4, ofString "acad"), (4, ofString "hatchbackgroundcolor"), (4, ofString "ezdxf")]
+
+def addMissing (tabs req : List (Nat × Str)) : List (Nat × Str) :=
+  req.foldl (fun acc r => if acc.contains r then acc else acc ++ [r]) tabs
+
 /-! ### the step function -/
 
 def step (s : State) : Op → State × Out
@@ -234,9 +423,13 @@ def step (s : State) : Op → State × Out
     | none => (s, .err .valueError)
     | some s1 => (destroyEnt s1 e, .ok)
   | .destroy e => (destroyEnt s e, .ok)
-  | .copy e k h seed =>
+  | .copy e k h subs seed =>
+    -- the copy of a linked parent gets fresh sub-entity handles: as many as the source has
     match findEnt s e with
-    | some x => if x.alive then newEnt s k h seed x.ref else (s, .err .other)
+    | some x =>
+      if x.alive then
+        (if subs.length = x.subs.length then newEnt s k h seed x.ref subs else (s, .err .notFresh))
+      else (s, .err .other)
     | none => (s, .err .other)
   | .purge =>
     ({ s with ents := s.ents.map (fun x => { x with indb := x.indb && x.alive }),
@@ -300,11 +493,68 @@ def step (s : State) : Op → State × Out
                 spaces := s.spaces.map (fun p => (p.1, p.2.filter (isAlive s))),
                 -- loading re-creates the required layer "0"
                 layers := if s.layers.contains [48] then s.layers else s.layers ++ [[48]],
+                -- `update_all` creates two appids before export, loading re-creates the required table entries
+                tabs := addMissing s.tabs requiredTabs,
+                -- `DXFGroup.preprocess_export` / `post_load_hook`: invalid members purged, a group whose members
+                -- lie on several layouts is cleared
+                groups := s.groups.map (auditGroup s),
                 next := seed }, .ok)
     else (s, .err .notFresh)
   | .foreign _ e =>
     -- `entity.doc != layout.doc` / handle not in the other entity database: rejected, nothing changes
     if isAlive s e then (s, .err .dxfStructureError) else (s, .err .other)
+  | .addL k ref h subs seed => newEnt s k h seed ref subs
+  | .explode e news seed =>
+    match findEnt s e with
+    | none => (s, .err .other)
+    | some x =>
+      if !x.alive then (s, .err .other)                 -- `block_ref.doc` of a destroyed entity
+      else match x.ref, x.owner with
+        | some name, some k =>
+          match spaceOf s k with
+          | none => (s, .err .other)
+          | some _ =>
+            match blockBr s (lower name) with
+            | none => (s, .err .dxfStructureError)     -- required block definition does not exist
+            | some b =>
+              let src := liveContent s b
+              let texts := x.subs.take (x.subs.length - 1)
+              if shapeOk s src news && freshOk s ((news.map (fun p => p.1 :: p.2)).flatten) seed && textsOk s texts then
+                match explodeCore s e k src news texts seed with
+                | some s' => (s', .ok)
+                | none => (s, .err .other)
+              else (s, .err .notFresh)
+        | some _, none => (s, .err .dxfStructureError)  -- INSERT without layout assignment
+        | none, _ => (s, .err .other)                   -- not an INSERT: the harness never asks
+  | .audit seed =>
+    if decide (s.next ≤ seed) then ({ (audit s).1 with next := seed }, .ok) else (s, .err .notFresh)
+  | .addEntry t name seed =>
+    if s.tabs.contains (t, lower name) then (s, .err .dxfTableEntryError)
+    else if freshOk s [] seed then ({ s with tabs := s.tabs ++ [(t, lower name)], next := seed }, .ok)
+    else (s, .err .notFresh)
+  | .delEntry t name =>
+    if s.tabs.contains (t, lower name) then ({ s with tabs := s.tabs.erase (t, lower name) }, .ok)
+    else (s, .err .dxfTableEntryError)
+  | .dupEntry t a b seed =>
+    -- `Table.duplicate_entry`: replaces an existing entry `b`
+    if !s.tabs.contains (t, lower a) then (s, .err .dxfTableEntryError)
+    else if freshOk s [] seed then
+      ({ s with tabs := if s.tabs.contains (t, lower b) then s.tabs else s.tabs ++ [(t, lower b)], next := seed }, .ok)
+    else (s, .err .notFresh)
+  | .newGroup name h seed =>
+    if (groupOf s name).isSome then (s, .err .dxfValueError)
+    else if freshOk s [h] seed then ({ s with groups := s.groups ++ [(name, h, [])], next := seed }, .ok)
+    else (s, .err .notFresh)
+  | .setGroup name ms =>
+    match groupOf s name with
+    | none => (s, .err .other)
+    | some _ =>
+      if ms.all (validMember s) && sameLayout s ms then
+        ({ s with groups := s.groups.map (fun g => if lower g.1 = lower name then (g.1, g.2.1, ms) else g) }, .ok)
+      else (s, .err .dxfStructureError)
+  | .delGroup name =>
+    if (groupOf s name).isSome then ({ s with groups := s.groups.filter (fun g => lower g.1 ≠ lower name) }, .ok)
+    else (s, .err .dxfValueError)
 
 /-! ### what `Drawing.write` exports (handles only): BLOCKS, ENTITIES, $HANDSEED -/
 
@@ -312,9 +562,8 @@ structure FileAbs where
   blocks : List (Nat × List Nat)     -- per BLOCK_RECORD in table order: entities between BLOCK and ENDBLK
   entities : List Nat                -- ENTITIES section: modelspace, then the active paperspace
   handseed : Nat
+  groups : List (Nat × List Nat) := []   -- OBJECTS: per GROUP object its handle and the member handles (340 tags)
   deriving Repr, DecidableEq
-
-def liveContent (s : State) (k : Nat) : List Nat := ((spaceOf s k).getD []).filter (isAlive s)
 
 /-- `BlocksSection.export_dxf` + `EntitySection.export_dxf` + `$HANDSEED = str(entitydb.handles)` -/
 def writeFile (s : State) : FileAbs :=
@@ -324,7 +573,8 @@ def writeFile (s : State) : FileAbs :=
       (b.2.2, if some b.2.2 = ms ∨ some b.2.2 = ps then [] else liveContent s b.2.2)),
     entities := (match ms with | some k => liveContent s k | none => []) ++
                 (match ps with | some k => liveContent s k | none => []),
-    handseed := s.next }
+    handseed := s.next,
+    groups := s.groups.map (fun g => ((auditGroup s g).2.1, (auditGroup s g).2.2)) }
 
 def run (s : State) (ops : List Op) : State := ops.foldl (fun st op => (step st op).1) s
 
